@@ -165,8 +165,19 @@ def prec(e):
     raise Invalid("prec " + k)
 
 
-def render_str(pieces):
-    return '"' + "".join(p[0] for p in pieces) + '"'
+def render_str(pieces, prefix=""):
+    if prefix == "R":
+        return 'R"(' + "".join(p[0] for p in pieces) + ')"'
+    return prefix + '"' + "".join(p[0] for p in pieces) + '"'
+
+
+def str_prefix(e):
+    """encoding prefix of a ["stridx", pieces, index, prefix] / ["str", pieces, prefix] node"""
+    n = 3 if e[0] == "stridx" else 2
+    return e[n] if len(e) > n else ""
+
+
+STR_ELEM = {"": ("char", 1), "u8": ("char", 1), "R": ("char", 1), "L": ("int", 4)}
 
 
 def rx(e, minprec):
@@ -179,7 +190,7 @@ def render_expr(e):
     if k == "lit":
         return e[1]
     if k == "chr":
-        return "'" + e[1] + "'"
+        return (e[3] if len(e) > 3 else "") + "'" + e[1] + "'"
     if k == "var":
         return e[1]
     if k == "par":
@@ -214,9 +225,9 @@ def render_expr(e):
             return "*" + e[1]
         return "*(" + e[1] + " + " + rx(e[2], 13) + ")"
     if k == "stridx":
-        return render_str(e[1]) + "[" + rx(e[2], 1) + "]"
+        return render_str(e[1], str_prefix(e)) + "[" + rx(e[2], 1) + "]"
     if k == "str":
-        return render_str(e[1])
+        return render_str(e[1], str_prefix(e))
     if k == "sizeof":
         if e[2] == "p" or e[1][0] == "cast":       # `sizeof (T) x` is not C: a cast is no unary-expression
             return "sizeof(" + render_expr(e[1]) + ")"
@@ -419,7 +430,7 @@ class Interp:
         if k == "lit":
             return e[2]
         if k == "chr":
-            return "char"
+            return "int" if len(e) > 3 and e[3] == "L" else "char"
         if k == "var":
             o = self.lookup(e[1])
             if not o.scalar or o.ptr is not None:
@@ -455,7 +466,7 @@ class Interp:
             o = self.lookup(e[1])
             return o.ptr[0].t if o.ptr is not None else o.t
         if k == "stridx":
-            return "char"
+            return STR_ELEM[str_prefix(e)][0]
         if k == "sizeof":
             return "ulong"
         raise Invalid("stype " + k)
@@ -465,7 +476,7 @@ class Interp:
         if k == "par":
             return self.sizeof(e[1])
         if k == "str":
-            return len(e[1]) + 1
+            return (len(e[1]) + 1) * STR_ELEM[str_prefix(e)][1]
         if k == "var":
             o = self.lookup(e[1])
             if o.ptr is not None:
@@ -524,7 +535,7 @@ class Interp:
         if k == "lit":
             return e[2], e[3]
         if k == "chr":
-            return "char", e[2]
+            return ("int" if len(e) > 3 and e[3] == "L" else "char"), e[2]
         if k == "par":
             return self.ev(e[1])
         if k in ("var", "idx", "deref"):
@@ -536,7 +547,7 @@ class Interp:
                 raise Invalid("double index")
             if not (0 <= iv <= len(e[1])):
                 raise Undefined("string index out of bounds")
-            return "char", (e[1][iv][1] if iv < len(e[1]) else 0)
+            return STR_ELEM[str_prefix(e)][0], (e[1][iv][1] if iv < len(e[1]) else 0)
         if k == "sizeof":
             return "ulong", self.sizeof(e[1])
         if k == "un":
@@ -969,7 +980,24 @@ class Gen:
         t, v = self.pick(CHARS)
         if t.startswith("\\"):
             self.feat.add("escape:char")
+        if self.p(0.1) and "literal-prefix" not in self.avoid:
+            self.feat.add("literal-prefix")
+            return ["chr", t, v, "L"]
         return ["chr", t, v]
+
+    def str_lit(self):
+        """-> (pieces, prefix)"""
+        if self.p(0.2) and "literal-prefix" not in self.avoid:
+            self.feat.add("literal-prefix")
+            pre = self.pick(["L", "u8", "R", "L"])
+            if pre == "R":
+                # raw string: no escape processing, backslash and quote are ordinary characters
+                n = self.r.randint(1, 5)
+                ps = [list(self.pick([("a", 97), ("\\", 92), ('"', 34), ("n", 110), ("'", 39), ("(", 40), ("x", 120)])) for _ in range(n)]
+                self.feat.add("raw-string")
+                return ps, "R"
+            return self.str_pieces(), pre
+        return self.str_pieces(), ""
 
     def str_pieces(self):
         n = self.r.randint(1, 6)
@@ -1042,8 +1070,8 @@ class Gen:
             elif c < 0.90:
                 if want != "dbl":
                     self.feat.add("string-subscript")
-                    ps = self.str_pieces()
-                    return ["stridx", ps, self.int_lit(0, len(ps) - 1, "int")]
+                    ps, pre = self.str_lit()
+                    return ["stridx", ps, self.int_lit(0, len(ps) - 1, "int"), pre]
             else:
                 hs = [h for h in self.helpers if (h["ret"] != "double" if want == "int" else
                                                   (h["ret"] == "double" if want == "dbl" else True))]
@@ -1086,7 +1114,8 @@ class Gen:
                 self.feat.add("sizeof-noparen")
             return ["sizeof", ["var", v["name"]], form]
         if c < 0.75:
-            return ["sizeof", ["str", self.str_pieces()], "p"]
+            ps, pre = self.str_lit()
+            return ["sizeof", ["str", ps, pre], "p"]
         # an unevaluated operand: may be anything, even undefined when evaluated
         save = (set(self.reads), set(self.locked))
         self.no_embed += 5
